@@ -6,7 +6,8 @@
 (* block), Fpp and Scatter, the two-stage apply                                     *)
 (*        x = S f + Scatter P (Fpp (f - A S f))                                      *)
 (* for scalar input with block_size B (active_rows N) and for B x B block-valued    *)
-(* input, and partial_update (update_transfer recomputes Fpp only).                 *)
+(* input, and partial_update (update_transfer recomputes Fpp only); the per-thread  *)
+(* scratch block of first_scalar_pass is modelled explicitly (ScratchRun).          *)
 (* K is a CRS record of integers with sorted rows; vectors / dense matrices are     *)
 (* rational (BlockLin.tla).                                                         *)
 EXTENDS Crs, BlockLin
@@ -27,7 +28,7 @@ InvertRun(A, B) ==
     LET lu == LUStep(A, B, 1)
         F[i \in 1..B] == RSub(IF i = 1 THEN ROne ELSE RZero, SumTo([j \in 1..(i - 1) |-> RMul(lu.A[i][j], F[j])], i - 1))   \* forward
         G[i \in 1..B] == RDiv(RSub(F[i], SumTo([q \in 1..(B - i) |-> RMul(lu.A[i][B + 1 - q], G[B + 1 - q])], B - i)), lu.A[i][i])   \* backward
-    IN  [ok |-> lu.ok, y |-> [i \in 1..B |-> G[i]]]
+    IN  [ok |-> lu.ok, y |-> [i \in 1..B |-> G[i]], lu |-> lu.A]
 
 \* ------------------------------------------------------------ scalar input
 NPof(K, B, act) == (IF act = 0 THEN K.n ELSE act) \div B
@@ -43,6 +44,23 @@ WeightsRun(K, B, ip) == InvertRun(DiagT(K, B, ip), B)
 \* definition: the first row of the inverse of the diagonal block
 WeightsDef(K, B, ip) == Solve(DiagT(K, B, ip), UnitV(B, 1))
 WeightsOK(K, B, ip) == LET r == WeightsRun(K, B, ip) IN r.ok => VEq(r.y, WeightsDef(K, B, ip).x)
+
+\* The code keeps ONE B x B scratch array v per thread: it is zeroed (clear = TRUE, as written), the stored
+\* entries of the diagonal block are scattered into it (transposed) and `invert` overwrites it with the LU
+\* factors.  ScratchRun carries v from block row to block row (one thread) and returns the weights of all.
+StoredT(K, B, ip, v0) == [c \in 1..B |-> [i \in 1..B |->
+                             IF (ip * B + c - 1) \in RowCols(K, ip * B + i - 1) THEN R(At(K, ip * B + i - 1, ip * B + c - 1)) ELSE v0[c][i]]]
+RECURSIVE ScratchFrom(_, _, _, _, _, _)
+ScratchFrom(K, B, np, clear, ip, v) ==
+    IF ip >= np THEN <<>>
+    ELSE LET v0 == IF clear THEN [c \in 1..B |-> [i \in 1..B |-> RZero]] ELSE v
+             r  == InvertRun(StoredT(K, B, ip, v0), B)
+         IN  <<[ok |-> r.ok, y |-> r.y]>> \o (IF r.ok THEN ScratchFrom(K, B, np, clear, ip + 1, r.lu) ELSE <<>>)
+ScratchRun(K, B, act, clear) == ScratchFrom(K, B, NPof(K, B, act), clear, 0, [c \in 1..B |-> [i \in 1..B |-> RZero]])
+\* every block row gets the first row of the inverse of ITS diagonal block, whatever was computed before
+ScratchOK(K, B, act, clear) ==
+    LET rs == ScratchRun(K, B, act, clear)
+    IN  \A ip \in 1..Len(rs) : rs[ip].ok => VEq(rs[ip].y, WeightsDef(K, B, ip - 1).x)
 
 \* App as rows of <<block column, value>>
 AppRowRun(K, B, act, ip, d) ==
@@ -87,6 +105,13 @@ ScalarBlockSameOK(K, B) ==
             b == BlockWeightsRun(K, B, ib)
         IN  a.ok = b.ok /\ (a.ok => (VEq(a.y, b.y) /\ AppRowRun(K, B, 0, ib, a.y) = BlockAppRowRun(K, B, ib, b.y)))
 
+\* block-valued update_transfer(): d = invert(adjoint(K_ii)) exactly as init() does (adj = TRUE as written)
+BlockUpdateWeightsRun(K, B, ib, adj) == InvertRun(IF adj THEN Adjoint(BlockOf(K, B, ib, ib), B) ELSE BlockOf(K, B, ib, ib), B)
+BlockPartialUpdateNoop(K, B, adj) ==
+    \A ib \in 0..(K.n \div B - 1) :
+        LET a == BlockWeightsRun(K, B, ib)
+            b == BlockUpdateWeightsRun(K, B, ib, adj)
+        IN  a.ok = b.ok /\ (a.ok => VEq(a.y, b.y))
 \* partial_update(K) with the unchanged matrix: update_transfer stops after the diagonal block
 \* (get_app = false) and must produce the same Fpp
 PartialUpdateNoop(K, B, act) ==
